@@ -64,7 +64,7 @@ def configs(tier, seed):
 
 def maker(cfg):
     def make():
-        srcs = [event.Source(trigger=t, path=(f"s{i}",)) for i, t in enumerate(cfg["trg"])]
+        srcs = [event.Source(trigger=(event.Source.Trigger(t) if i % 2 else t), path=(f"s{i}",)) for i, t in enumerate(cfg["trg"])]
         em = event.EventMap()
         for i in cfg["order"]:
             em.add(srcs[i])
